@@ -18,6 +18,8 @@
      path_empty_at_end u      the path is empty and is the end of the serialization      (class of F-C06-5)
      path_starts_with_2slash u   the path starts with "//"                                 (class of F-C02-2)
      new_path_ok P        P contains neither '?' nor '#', and is empty or starts with '/'
+     marker_path u        no authority and path_start = scheme_end + 3 (the "/." marker in front of a "//"-led path)
+     noauth_slash_path u  no authority, no marker, the path starts with '/'
      host_disp_ok hd h    the text hd h matches the kind of h: empty for the empty host, otherwise
                           non-empty and not starting with ':' / '@'
    All theorems are for both build configurations (dbg) and for arbitrary host functions. *)
@@ -25,7 +27,8 @@ From RU Require Import Base.Prelude Base.Utf8 Model.AsciiSet Gen.Tables Model.Pe
   Model.HostT Model.UrlRecord Model.Parser Model.Setters Model.WF
   Proofs.ListN Proofs.C03_WF Proofs.C06_List Proofs.C06_WFI Proofs.C06_Tail Proofs.C06_Steps Proofs.C06_Suffix
   Proofs.C06_Front Proofs.C06_Atomic Proofs.C06_FragQuery Proofs.C06_Port Proofs.C06_Cred Proofs.C06_Scheme
-  Proofs.C06_HostNone Proofs.C06_Host Proofs.C06_PathParser Proofs.C06_Path Proofs.C06_Segments Proofs.C06_PathNoAuth Proofs.C06_Main.
+  Proofs.C06_HostNone Proofs.C06_Host Proofs.C06_PathParser Proofs.C06_Path Proofs.C06_Segments Proofs.C06_PathNoAuth Proofs.C06_Main
+  Proofs.C06_PathMore.
 
 (* 1. a mutator that reports failure returns the record unchanged (hence as_str() byte for byte).
    No premise at all: every record, every argument, all thirteen status-returning mutators. *)
@@ -269,13 +272,134 @@ Check C06_frame_path_noauth : forall dbg u, wf_b u = true -> noauth_slash_path u
      /\ exists P, path u' = Some P /\ new_path_ok P).
 Print Assumptions C06_frame_path_noauth.
 
-(* What is NOT proved here (kept as statements): set_path on an opaque path (the class of F-C02-3:
-   '?' and '#' are written unencoded; for other arguments the statement below is expected to hold),
-   and the path editors on an authority-less URL that carries the "/." marker (class of F-C03-5). *)
+(* 10. set_path on an OPAQUE path.  The statement as it was first written down (any argument without
+   '?' and '#', which are the class F-C02-3) is kept below and is FALSE: only a '/' in the very first
+   position of the argument is escaped ("%2F"), while TAB / LF / CR are dropped by the input iterator
+   afterwards, so set_path("<TAB>//x") on "a:b" gives "a://x" with the offsets of an authority-less
+   record (the class of F-C02-8 reached from an opaque path). *)
 Definition C06_frame_path_opaque_statement : Prop :=
   forall dbg u p u', wfh u -> is_opaque_b u = true -> usv_list p ->
     forallb no_qh p = true -> set_path dbg u p = Some u' ->
     wfh u' /\ same_front dbg u u' /\ query dbg u' = query dbg u /\ fragment dbg u' = fragment dbg u.
+
+Theorem C06_frame_path_opaque_refuted : ~ C06_frame_path_opaque_statement.
+Proof.
+  intros S. destruct set_path_opaque_tab_refuted as (W & O & Q & u' & E & _ & F).
+  assert (wfh sp_w2) as Hw by (split; [exact W | intros Hh; vm_compute in Hh; discriminate]).
+  assert (usv_list [9; 47; 47; 120]) as Hu by (repeat constructor; unfold is_usv; lia).
+  destruct (S true sp_w2 [9; 47; 47; 120] u' Hw O Hu Q E) as ((W' & _) & _). congruence.
+Qed.
+Check C06_frame_path_opaque_refuted : ~ C06_frame_path_opaque_statement.
+Print Assumptions C06_frame_path_opaque_refuted.
+
+(* the exact form: for every argument without '?' / '#' (no condition on the code points) the result
+   satisfies the invariant and the frame iff its path does not start with "//"; the new path has no
+   '?' / '#' *)
+Theorem C06_frame_path_opaque : forall dbg u p u', wfh u -> is_opaque_b u = true ->
+  forallb no_qh p = true -> set_path dbg u p = Some u' ->
+  (path_starts_with_2slash u' = false ->
+     wfh u' /\ same_front dbg u u' /\ query dbg u' = query dbg u /\ fragment dbg u' = fragment dbg u
+     /\ exists P, path u' = Some P /\ forallb no_qh P = true)
+  /\ (path_starts_with_2slash u' = true -> wf_b u' = false).
+Proof.
+  intros dbg u p u' [W _] O Q E. destruct (set_path_opaque_ok dbg u p u' W O Q E) as [R1 R2].
+  split; [|exact R2]. intros H. destruct (R1 H) as (A & B & C & D & F & G).
+  split; [split; assumption|]. split; [exact C|]. split; [exact D|]. split; [exact F | exact G].
+Qed.
+Check C06_frame_path_opaque : forall dbg u p u', wfh u -> is_opaque_b u = true ->
+  forallb no_qh p = true -> set_path dbg u p = Some u' ->
+  (path_starts_with_2slash u' = false ->
+     wfh u' /\ same_front dbg u u' /\ query dbg u' = query dbg u /\ fragment dbg u' = fragment dbg u
+     /\ exists P, path u' = Some P /\ forallb no_qh P = true)
+  /\ (path_starts_with_2slash u' = true -> wf_b u' = false).
+Print Assumptions C06_frame_path_opaque.
+
+(* the hypotheses are met non-trivially: "a:b" with set_path("x /y") gives "a:x /y" (opaque, well-formed);
+   with set_path("/y") the leading '/' is escaped: "a:%2Fy"; with set_path(TAB "/y") it is not: "a:/y" is
+   well-formed (the frame holds) but no longer has an opaque path *)
+Example C06_frame_path_opaque_inhabited :
+  wfh sp_w2 /\ is_opaque_b sp_w2 = true
+  /\ (exists u', set_path true sp_w2 [120; 32; 47; 121] = Some u' /\ ser u' = [97; 58; 120; 32; 47; 121]
+        /\ path_starts_with_2slash u' = false /\ wf_b u' = true)
+  /\ (exists u', set_path true sp_w2 [47; 121] = Some u' /\ ser u' = [97; 58; 37; 50; 70; 121] /\ is_opaque_b u' = true)
+  /\ (exists u', set_path true sp_w2 [9; 47; 121] = Some u' /\ ser u' = [97; 58; 47; 121]
+        /\ wf_b u' = true /\ is_opaque_b u' = false).
+Proof.
+  split; [split; [vm_compute; reflexivity | intros Hh; vm_compute in Hh; discriminate]|].
+  split; [vm_compute; reflexivity|].
+  split; [|split]; eexists; (split; [vm_compute; reflexivity|]); repeat split; vm_compute; reflexivity.
+Qed.
+
+(* 11. set_path and path_segments_mut sessions on an authority-less URL that carries the "/." marker
+   (marker_path u: no authority, path_start = scheme_end + 3; the class of F-C03-5): neither editor
+   touches the marker, so the result satisfies the invariant and the frame iff the new path still starts
+   with "//" - otherwise "/." stays in front of a path that needs none. *)
+Theorem C06_frame_path_marker : forall dbg u, wf_b u = true -> marker_path u ->
+  (forall p u', usv_list p -> set_path dbg u p = Some u' ->
+     (path_starts_with_2slash u' = true ->
+        wfh u' /\ same_front dbg u u' /\ query dbg u' = query dbg u /\ fragment dbg u' = fragment dbg u
+        /\ exists P, path u' = Some P /\ new_path_ok P)
+     /\ (path_starts_with_2slash u' = false -> wf_b u' = false))
+  /\ (forall ops u', Forall psm_op_usv ops -> path_segments_session dbg u ops = Some (u', SOk) ->
+     (path_starts_with_2slash u' = true ->
+        wfh u' /\ same_front dbg u u' /\ query dbg u' = query dbg u /\ fragment dbg u' = fragment dbg u
+        /\ exists P, path u' = Some P /\ new_path_ok P)
+     /\ (path_starts_with_2slash u' = false -> wf_b u' = false)).
+Proof.
+  intros dbg u W M. split.
+  - intros p u' Hp E. destruct (set_path_marker_ok dbg u p u' W M Hp E) as [R1 R2]. split; [|exact R2].
+    intros H. destruct (R1 H) as (A & B & C & D & F & G). split; [split; assumption|]. split; [exact C|]. split; [exact D|]. split; [exact F | exact G].
+  - intros ops u' Ho E. destruct (path_segments_session_marker_ok dbg u ops u' W M Ho E) as [R1 R2]. split; [|exact R2].
+    intros H. destruct (R1 H) as (A & B & C & D & F & G). split; [split; assumption|]. split; [exact C|]. split; [exact D|]. split; [exact F | exact G].
+Qed.
+Check C06_frame_path_marker : forall dbg u, wf_b u = true -> marker_path u ->
+  (forall p u', usv_list p -> set_path dbg u p = Some u' ->
+     (path_starts_with_2slash u' = true ->
+        wfh u' /\ same_front dbg u u' /\ query dbg u' = query dbg u /\ fragment dbg u' = fragment dbg u
+        /\ exists P, path u' = Some P /\ new_path_ok P)
+     /\ (path_starts_with_2slash u' = false -> wf_b u' = false))
+  /\ (forall ops u', Forall psm_op_usv ops -> path_segments_session dbg u ops = Some (u', SOk) ->
+     (path_starts_with_2slash u' = true ->
+        wfh u' /\ same_front dbg u u' /\ query dbg u' = query dbg u /\ fragment dbg u' = fragment dbg u
+        /\ exists P, path u' = Some P /\ new_path_ok P)
+     /\ (path_starts_with_2slash u' = false -> wf_b u' = false)).
+Print Assumptions C06_frame_path_marker.
+
+(* both halves are inhabited: "a:/.//p" - set_path("/q") gives "a:/./q", path_segments_mut().clear() gives
+   "a:/./" (not well-formed), set_path("//q") gives "a:/.//q" (well-formed) *)
+Theorem C06_path_marker_refuted :
+  wf_b mk_w = true /\ marker_path mk_w
+  /\ (exists u', set_path true mk_w [47; 113] = Some u' /\ ser u' = [97; 58; 47; 46; 47; 113] /\ wf_b u' = false)
+  /\ (exists u', path_segments_session true mk_w [PClear] = Some (u', SOk) /\ ser u' = [97; 58; 47; 46; 47] /\ wf_b u' = false)
+  /\ (exists u', set_path true mk_w [47; 47; 113] = Some u' /\ ser u' = [97; 58; 47; 46; 47; 47; 113] /\ wf_b u' = true).
+Proof. exact marker_refuted. Qed.
+Print Assumptions C06_path_marker_refuted.
+
+(* 12. the exclusion of C06_frame_path_noauth is exact as well: on an authority-less URL with a '/'-led
+   path and no marker, a result that starts with "//" is never well-formed (F-C02-8) *)
+Theorem C06_frame_path_noauth_exact : forall dbg u, wf_b u = true -> noauth_slash_path u ->
+  (forall p u', usv_list p -> set_path dbg u p = Some u' -> path_starts_with_2slash u' = true -> wf_b u' = false)
+  /\ (forall ops u', Forall psm_op_usv ops -> path_segments_session dbg u ops = Some (u', SOk) ->
+     path_starts_with_2slash u' = true -> wf_b u' = false).
+Proof.
+  intros dbg u W NA. split.
+  - intros p u' Hp E. exact (set_path_noauth_exact dbg u p u' W NA Hp E).
+  - intros ops u' Ho E. exact (path_segments_session_noauth_exact dbg u ops u' W NA Ho E).
+Qed.
+Check C06_frame_path_noauth_exact : forall dbg u, wf_b u = true -> noauth_slash_path u ->
+  (forall p u', usv_list p -> set_path dbg u p = Some u' -> path_starts_with_2slash u' = true -> wf_b u' = false)
+  /\ (forall ops u', Forall psm_op_usv ops -> path_segments_session dbg u ops = Some (u', SOk) ->
+     path_starts_with_2slash u' = true -> wf_b u' = false).
+Print Assumptions C06_frame_path_noauth_exact.
+
+(* the four layouts of a well-formed record are exhaustive: authority (8), no authority with a '/'-led
+   path and no marker (9, 12), opaque path (10), marker (11) *)
+Theorem C06_path_layouts : forall u, wf_b u = true ->
+  has_authority_b u = true \/ noauth_slash_path u \/ is_opaque_b u = true \/ marker_path u.
+Proof. exact path_layouts. Qed.
+Check C06_path_layouts : forall u, wf_b u = true ->
+  has_authority_b u = true \/ noauth_slash_path u \/ is_opaque_b u = true \/ marker_path u.
+Print Assumptions C06_path_layouts.
 
 (* non-vacuity: the invariant is inhabited (http://u:p@h:81/a?q#f and an opaque-path URL) *)
 Example C06_wfh_inhabited :
